@@ -334,10 +334,19 @@ func (h *handlerMap) target(info *types.Info, e ast.Expr, mnemonicVars map[types
 		if !ok {
 			return nil
 		}
-		// the mnemonic, if forwarded, must be the captured variable itself
-		for _, a := range call.Args[min(2, len(call.Args)):] {
+		// every argument is one of the closure's own parameters, or the captured mnemonic variable
+		// itself (in whatever order the target takes them)
+		params := map[types.Object]bool{}
+		if x.Type.Params != nil {
+			for _, fld := range x.Type.Params.List {
+				for _, nm := range fld.Names {
+					params[info.Defs[nm]] = true
+				}
+			}
+		}
+		for _, a := range call.Args {
 			id, ok := a.(*ast.Ident)
-			if !ok || !mnemonicVars[info.Uses[id]] {
+			if !ok || !(mnemonicVars[info.Uses[id]] || params[info.Uses[id]]) {
 				return nil
 			}
 		}
